@@ -5,6 +5,7 @@ import (
 	"os"
 
 	_ "verif/harness/checks/balance"
+	_ "verif/harness/checks/container"
 	_ "verif/harness/checks/netmap"
 	"verif/harness/runner"
 )
